@@ -33,7 +33,7 @@ T = {
          "O1 as in C01; the hook is validated by C13."),
  "C13": ("reference-model monitor through the cfg(a4lg_ffuzzy_verif) zero-prefix hook: O1 with closed-form zero jump over sizes 0..192GiB+; hook and jump re-validated against real feeding every run",
          "Prefix is always zero bytes; non-zero data at multi-GiB offsets only up to 4 GiB (C01 thorough). Hook trusted only after its per-run validation."),
- "C14": ("configuration-differential monitoring: byte-identical transcripts across feature sets x debug assertions, all other monitors re-run inside each configuration, unchecked-vs-checked twins, Miri UB interpreter (and ASan in thorough) on the unsafe build",
+ "C14": ("configuration-differential monitoring: byte-identical transcripts across feature sets x debug assertions, all other monitors re-run inside each configuration, unchecked-vs-checked twins, Miri UB interpreter (first cases of every monitor plus a sharded shaped scan of boundary cases) and AddressSanitizer on the unsafe build, memory faults / unsafe-precondition aborts of unsafe builds counted as violations",
          "Miri/ASan see only the executions of the clamped workloads; intra-object overflows are invisible to ASan (Miri is primary)."),
  "C15": ("abstract-model monitor (O8) over random conversion chains with dirty destinations; narrowing contract",
          "Held on generated chains."),
@@ -41,7 +41,7 @@ T = {
          "Dual hashes sharing a normalized part: only order axioms demanded (documented as implementation-defined)."),
  "C17": ("invariant monitors on reused comparison targets / position arrays vs fresh ones over initialization sequences",
          "Held on generated sequences."),
- "C18": ("fault injection: failing/short Read implementations at every read index and error kind, special files, and strace syscall fault injection (read errors, premature EOF, phantom bytes, statx/openat failures) around hash_file",
+ "C18": ("fault injection: failing/short Read implementations at every read index and error kind, special files, and strace syscall fault injection (read errors, premature EOF, phantom bytes, statx/openat failures, files that shrink between the metadata query and the reads, multi-GiB sparse files) around hash_file",
          "strace part is skipped (and recorded as such) if ptrace is unavailable; any error is accepted, only Ok is a violation."),
  "C19": ("reference-model monitor: from-scratch rolling hash and 32-bit FNV-1 vs the primitives at every prefix; exhaustive FNV (state, byte) steps; six update forms",
          "FNV step space is complete; rolling hash sampled."),
